@@ -132,3 +132,55 @@ def top_entries(res):
 def short(t, n=220):
     s = show(t)
     return s if len(s) <= n else s[: n - 1] + "…"
+
+
+def ptr_general(t, depth=0):
+    """phi{B | B + o}  ->  B + o.  get_pointer/get_pointer_mut return the bare base only under `offset == 0`
+    (rule C15-R0 checks exactly that), so the general alternative denotes both."""
+    if depth > 30:
+        return t
+    if isinstance(t, Lin):
+        out = const(t.c)
+        from sym import scale
+        for a, c in t.m.items():
+            out = add(out, scale(ptr_general(a, depth + 1), c))
+        return out
+    if isinstance(t, tuple):
+        if tag(t) == "phi" and len(t) > 3:
+            alts = [ptr_general(x, depth + 1) for x in t[3]]
+            if len(alts) == 2:
+                a, b = alts
+                for base, gen in ((a, b), (b, a)):
+                    try:
+                        d = sub(gen, base)
+                    except Exception:
+                        continue
+                    if isinstance(gen, Lin) and not isinstance(d, Lin) or (isinstance(d, Lin) and len(d.m) == 1 and d.c == 0 and all(v == 1 for v in d.m.values())):
+                        if base != gen:
+                            return gen
+            return t
+        return tuple(ptr_general(x, depth + 1) if isinstance(x, (tuple, Lin)) else x for x in t)
+    return t
+
+
+def overflow_discharged(order, e):
+    """An Add/Sub/Mul site: discharged when the dominating facts bound the result inside the operand type."""
+    op, a, b = e["op"], e["a"], e["b"]
+    if op == "Sub":
+        return order.le(b, a)
+    if op == "Add":
+        s = add(a, b)
+        cands = set()
+        for f in order.ge0:
+            for at, c in f.m.items():
+                if c == 1:
+                    cands.add(at)
+        for x in cands:
+            if order.le(s, x):
+                return True
+        if is_const(a) and is_const(b):
+            return True
+        return False
+    if op == "Mul":
+        return is_const(a) and is_const(b)
+    return False
